@@ -3,7 +3,9 @@
    Size statements are about g_size_bound = the function regenerated from vyper/abi_types.py in this run. *)
 From Coq Require Import ZArith List Bool Lia.
 From Verif Require Import C06.Abi C06.AbiLemmas C06.ZeroPad C06.Venc C06.VencProofs C06.GenAbiSizes C06.SizesTie.
-From Verif Require Import C06.Sexp C06.SxEval C06.XEval C06.SrcEnc C06.SrcEncProofs.
+From Verif Require Import C06.Sexp C06.SxEval C06.XEval C06.SrcEnc C06.SrcEncProofs C06.SrcHolds C06.Widen C06.WidenProofs C06.PreCopy C06.TplEncL C06.TplEncX C06.LeafSem.
+From Coq Require Import String.
+From Verif Require Import Base.Word256.
 Import ListNotations.
 Open Scope Z_scope.
 
@@ -33,6 +35,11 @@ Proof. intros cd t v ofs m dst Hw Hi Hh. exact (proj1 (proj2 (wenc_correct (src_
 Print Assumptions enc_from_storage_canonical.
 Print Assumptions enc_from_calldata_canonical.
 
+(* the premise [holds] is decidable: the check evaluates holdsb on every sampled storage / calldata image *)
+Theorem holds_decidable_sound : forall S t v p, holdsb S t v p = true -> holds S t v p.
+Proof. exact holdsb_sound. Qed.
+Print Assumptions holds_decidable_sound.
+
 (* word copy loops: k iterations of  mstore (dst + 32 i) (LOAD (p + ws i))  are ONE write of the k source words;
    reading the destination back gives exactly those words, nothing else changes (Venom load_storage_to_memory /
    copy_to_memory, legacy copy_bytes loop and unrolled static setters) *)
@@ -46,16 +53,82 @@ Proof. exact copy_words_readback. Qed.
 Print Assumptions word_copy_loop_spec.
 Print Assumptions word_copy_loop_readback.
 
+(* pre-cancun copy paths = MCOPY: the identity precompile call the generators emit (same length in and out), and the
+   unrolled  mstore (dst + 32 i) (mload (src + 32 i))  sequence reading the CURRENT memory, for non-overlapping regions *)
+Theorem precancun_identity_is_mcopy : forall (m : mem) src dst n a, identity_call m src n dst n a = mcopy m dst src n a.
+Proof. exact identity_is_mcopy. Qed.
+Theorem precancun_unrolled_is_mcopy : forall k src (m : mem) dst a, mem_ok m ->
+  src + 32 * Z.of_nat k <= dst \/ dst + 32 * Z.of_nat k <= src ->
+  mcopy_words k src m dst a = mcopy m dst src (32 * Z.of_nat k) a.
+Proof. exact unrolled_is_mcopy. Qed.
+Print Assumptions precancun_identity_is_mcopy.
+Print Assumptions precancun_unrolled_is_mcopy.
+Example precopy_nonvacuous :
+  let m : mem := fun a => a mod 256 in
+  mem_ok m /\ list_eqb (mread (mcopy_words 3 64 m 1000) 1000 96) (mread m 64 96) = true.
+Proof. split. intro a. cbn beta. lia. vm_compute. reflexivity. Qed.
+
 (* non-vacuity: a storage holding (int8 -1, Bytes[40] of 3 bytes with DIRTY slack, String[5], uint256[] of 1 of 2) *)
 Definition T_x := TTuple [TInt 8; TBytes 40; TString 5; TDArr (TUInt 256) 2; TSArr (TUInt 8) 2].
 Definition V_x := VList [VInt (-1); VBytes [1; 2; 3]; VBytes [104; 105]; VList [VInt 7]; VList [VInt 1; VInt 2]].
 Definition sto_x : Z -> Z := sto_of (vylayout 238 T_x V_x) SLOT0.
 Example holds_nonvacuous :
   wf_ty T_x = true /\ in_type T_x V_x = true /\ holds (src_sto sto_x) T_x V_x SLOT0 /\
-  sto_x (SLOT0 + 2) mod 256 = 238 /\        (* the slack of the stored byte string is dirty *)
+  premise_sto T_x V_x = 1 /\ sto_x (SLOT0 + 2) mod 256 = 238 /\        (* the slack of the stored byte string is dirty *)
   list_eqb (mreadz (fst (wenc (src_sto sto_x) T_x SLOT0 (fun _ => 171) 4096)) 4096 (zlen (enc T_x V_x))) (enc T_x V_x) = true.
 Proof.
   split; [reflexivity|]. split; [reflexivity|]. split.
   - vm_compute. repeat split; try reflexivity; eexists; reflexivity.
-  - split; vm_compute; reflexivity.
+  - split; [|split]; vm_compute; reflexivity.
+Qed.
+
+(* ---- template generator = structural model, PROVED (not only executed) for the padding-critical leaf: a byte
+   string read from storage.  For every bound b >= 1 the IR that the Coq template generator tpl_enc_l_sto produces
+   for Bytes[b] / String[b] (tied syntactically to the real abi_encode output by TieEncX.tie_enc_l_sto), run by the
+   evaluator XEval.evx with any fuel >= 12, returns the model's length and leaves the model's memory ... ---- *)
+Theorem sto_bytestring_template_is_model_small : forall b (sto : Z -> Z) (cd : mem) p d (m : mem),
+  1 <= b <= 32 -> 0 <= d -> d + 160 <= MEMLIM -> 0 <= p -> p + 1 < W -> 0 <= sto p <= b ->
+  (forall a, MEMLIM <= a -> cd a = 0) ->
+  forall t, t = TBytes b \/ t = TString b ->
+  exists v m', (forall fu, (12 <= fu)%nat ->
+                  evx (mkX sto cd) fu (tpl_enc_l_sto t) (mkSt (E0 p d) m) = RVal (v, mkSt (E0 p d) m')) /\
+     v = snd (wenc (src_sto sto) t p m d) /\ forall a, m' a = fst (wenc (src_sto sto) t p m d) a.
+Proof. exact sto_bytes_small_template_is_model. Qed.
+Theorem sto_bytestring_template_is_model_big : forall b (sto : Z -> Z) (cd : mem) p d (m : mem),
+  32 < b -> 0 <= sto p <= b -> 0 <= d -> d + ceil32 b + 160 <= MEMLIM -> 0 <= p -> p + b < W ->
+  (forall a, MEMLIM <= a -> cd a = 0) ->
+  forall t, t = TBytes b \/ t = TString b ->
+  exists v m', (forall fu, (12 <= fu)%nat ->
+                  evx (mkX sto cd) fu (tpl_enc_l_sto t) (mkSt (E0 p d) m) = RVal (v, mkSt (E0 p d) m')) /\
+     v = snd (wenc (src_sto sto) t p m d) /\ forall a, m' a = fst (wenc (src_sto sto) t p m d) a.
+Proof. exact sto_bytes_big_template_is_model. Qed.
+(* ... hence, end to end: the evaluated template returns |enc| and leaves enc at dst, touching nothing outside
+   [dst, dst + size_bound), for every stored byte string, every prior memory, every slack content of the storage *)
+Theorem sto_bytestring_template_canonical : forall b (sto : Z -> Z) (cd : mem) p d (m : mem) data t,
+  1 <= b -> t = TBytes b \/ t = TString b ->
+  in_type t (VBytes data) = true -> holds (src_sto sto) t (VBytes data) p -> 0 <= sto p < W256 ->
+  0 <= d -> d + ceil32 b + 160 <= MEMLIM -> 0 <= p -> p + b < W ->
+  (forall a, MEMLIM <= a -> cd a = 0) ->
+  exists m', (forall fu, (12 <= fu)%nat ->
+                evx (mkX sto cd) fu (tpl_enc_l_sto t) (mkSt (E0 p d) m) =
+                RVal (zlen (enc t (VBytes data)), mkSt (E0 p d) m')) /\
+             mreadz m' d (zlen (enc t (VBytes data))) = enc t (VBytes data) /\
+             (forall a, a < d \/ d + size_bound t <= a -> m' a = m a).
+Proof. exact sto_bytes_template_canonical. Qed.
+Print Assumptions sto_bytestring_template_is_model_small.
+Print Assumptions sto_bytestring_template_is_model_big.
+Print Assumptions sto_bytestring_template_canonical.
+
+Definition sto_b : Z -> Z := sto_of (vylayout 238 (TBytes 40) (VBytes [1; 2; 3])) SLOT0.
+Example leaf_nonvacuous :
+  in_type (TBytes 40) (VBytes [1; 2; 3]) = true /\ holds (src_sto sto_b) (TBytes 40) (VBytes [1; 2; 3]) SLOT0 /\
+  sto_b SLOT0 = 3 /\ 4096 + ceil32 40 + 160 <= MEMLIM /\ SLOT0 + 40 < W /\
+  match evx (mkX sto_b (fun _ => 0)) 50 (tpl_enc_l_sto (TBytes 40)) (mkSt (E0 SLOT0 4096) (fun _ => 171)) with
+  | RVal (v, s) => (v =? 64) && list_eqb (mread (s_mem s) 4096 64) (enc (TBytes 40) (VBytes [1; 2; 3]))
+  | _ => false end = true.
+Proof.
+  split; [reflexivity|]. split.
+  - vm_compute. split; [reflexivity|]. eexists; reflexivity.
+  - split; [vm_compute; reflexivity|]. split; [vm_compute; discriminate|]. split; [vm_compute; reflexivity|].
+    vm_compute. reflexivity.
 Qed.
